@@ -178,6 +178,36 @@ func (r §acc) gen(step int) ITER[int] GENP[int](r §acc, step int){
 }GENP
 func §E() { drv.Run[int](func() drv.It[int] { it := (§acc{5}).gen(3); return it }) }
 `, "partial-redeclaration", "redeclared-parameter"),
+		G("scope-partial-redeclaration-temporary-names-do-not-clash", `
+a1, a, x := 1, 2, 3
+get := func() int { return tr.R(1, a1*100+a*10+x) }
+YIELD(get())
+x, n1 := x+1, 1
+tr.U(n1)
+a1, n2 := a1+1, 2
+tr.U(n2)
+x, n3 := x+1, 3
+tr.U(n3)
+x, n4 := x+1, 4
+tr.U(n4)
+x, n5 := x+1, 5
+tr.U(n5)
+x, n6 := x+1, 6
+tr.U(n6)
+x, n7 := x+1, 7
+tr.U(n7)
+x, n8 := x+1, 8
+tr.U(n8)
+x, n9 := x+1, 9
+tr.U(n9)
+x, n10 := x+1, 10
+tr.U(n10)
+x, n11 := x+1, 11
+tr.U(n11)
+a, n12 := a+1, 12
+tr.U(n12)
+YIELD(get())
+RETNIL`, "partial-redeclaration"),
 		G("scope-partial-redeclaration-without-yield-between", `
 YIELD(0)
 a := 1
